@@ -38,7 +38,7 @@ CFG = {
             "{1,2,3,5}, occasionally 120 vertices; 'wide' geometries with 65/129/257/1025 members at exactly one nesting level; 50% with later members possibly empty; 5% first member empty; 5% one non-finite coordinate; "
             "5% GeometryCollection/*Bounds), each giving a ToGeoJSON, an Encode and a Decode(Encode) case; plus generator-written JSON documents "
             "(key order/case/escapes, duplicates, foreign members, white space, alternative number spellings, perturbed nesting/arity) decoded "
-            "at text level (Decode) and tree level (FromGeoJSON). distinct = distinct input line; non-trivial = verdict class not 'skipped'",
+            "at text level (Decode) and tree level (FromGeoJSON). plus batch lines (a history of 2..8 Encode calls whose returned slices are kept and re-verified after the whole batch); distinct = distinct input line; non-trivial = verdict class not 'skipped'",
     "timeout": {"quick": 600, "thorough": 3000},
     "explanation": "SPEC verdicts: the bytes Encode returns are parsed by the total RFC 8259 parser of Text.lean (the one the text-level theorems are about) (numbers converted by exact "
                    "round-to-nearest-even) and must be read back to the input geometry bit-for-bit by the independent RFC 7946 reader "
